@@ -14,6 +14,7 @@ import (
 	"context"
 	"encoding/base64"
 	"encoding/json"
+	"flag"
 	"fmt"
 	"net/url"
 	"os"
@@ -52,13 +53,44 @@ func init() {
 		Workers:    12,
 		Assumptions: []string{
 			"JSON/YAML parsers and marshmallow are not modelled: the parse of the bytes (encoding/json, else oasdiff/yaml YAMLToJSON) is computed by the harness and handed to the model as the document tree",
-			"every case runs in a child process with a 16 MiB stack limit and a timeout of 15 s; a fatal crash or timeout is an observation; after 6000 crashed or 36 hung children the remaining cases of a run are skipped",
+			"every case runs in a child process with a 16 MiB stack limit and a timeout of 20 s (a case that exceeds it is run once more, alone, with 60 s: only then it counts as a hang); a fatal crash or timeout is an observation; after 3000 crashed or 12 hung children, or 300 s (thorough: 1500 s) of wall time, the remaining cases of a run are skipped (counted as impl_outcome_kinds.skipped) — the run cannot stall as a whole",
 			"external files are served from memory through ReadFromURIFunc (no disk or network access)",
 		},
 	})
 }
 
-const c20TimeoutMs = 15000
+// Per-case limits. A case that does not answer within c20TimeoutMs is run once more in a fresh child with
+// c20RetryTimeoutMs, so that a slow machine does not turn a slow case into a "hang"; only a case that
+// exceeds both is observed as a hang. The slowest case of the unchanged tree (1000 nested `items`, the
+// typed decoding is quadratic in the nesting depth) takes 0.5 s.
+const (
+	c20TimeoutMs      = 20000
+	c20RetryTimeoutMs = 60000
+)
+
+// wall-clock budget of the whole run (generation + shrinking): after it the remaining cases are not executed
+// (observation {"skipped": true}, counted in the evidence under impl_outcome_kinds), so that the run can
+// never stall as a whole whatever the code under test does.
+var (
+	c20StartOnce sync.Once
+	c20Start     time.Time
+	c20BudgetDur time.Duration
+	c20Skipped   int64
+)
+
+func c20OverBudget() bool {
+	c20StartOnce.Do(func() {
+		c20Start = time.Now()
+		c20BudgetDur = 300 * time.Second
+		if f := flag.Lookup("tier"); f != nil && f.Value.String() == "thorough" {
+			c20BudgetDur = 1500 * time.Second
+		}
+		if v, err := strconv.Atoi(os.Getenv("C20_BUDGET_S")); err == nil && v > 0 {
+			c20BudgetDur = time.Duration(v) * time.Second
+		}
+	})
+	return time.Since(c20Start) > c20BudgetDur
+}
 
 // runC20Isolated evaluates the case in a pooled child process; when the child dies the case is run
 // once more in a fresh child whose stderr is kept, to name the function that overflowed the stack.
@@ -69,14 +101,20 @@ const c20StackMB = 16
 // hung children the remaining cases are not executed (observation {"skipped": true}, counted in the
 // evidence under impl_outcome_kinds); the unchanged tree stays far below both limits.
 const (
-	c20MaxCrashes = 6000
-	c20MaxHangs   = 36
+	c20MaxCrashes = 3000
+	c20MaxHangs   = 12
 )
 
 var c20Crashes, c20Hangs int64
 
 func runC20Isolated(c hx.Case) any {
-	if atomic.LoadInt64(&c20Crashes) > c20MaxCrashes || atomic.LoadInt64(&c20Hangs) > c20MaxHangs {
+	if c20OverBudget() || atomic.LoadInt64(&c20Crashes) > c20MaxCrashes || atomic.LoadInt64(&c20Hangs) > c20MaxHangs {
+		atomic.AddInt64(&c20Skipped, 1)
+		return map[string]any{"skipped": true, "kind": "skipped"}
+	}
+	if f := os.Getenv("C20_DUMP"); f != "" {
+		b, _ := json.Marshal(c)
+		c20Trace(f, string(b))
 		return map[string]any{"skipped": true, "kind": "skipped"}
 	}
 	if f := os.Getenv("C20_TRACE"); f != "" {
@@ -89,6 +127,17 @@ func runC20Isolated(c hx.Case) any {
 		defer func() { c20Trace(f, fmt.Sprintf("%s done %d", time.Now().Format("15:04:05.000"), id)) }()
 	}
 	obs := hx.RunIsolated("C20", c, c20TimeoutMs)
+	if m, ok := obs.(map[string]any); ok {
+		if _, hung := m["hang"]; hung {
+			// slow or hanging? once more, alone in a fresh child, with three times the limit
+			obs = hx.RunIsolated("C20", c, c20RetryTimeoutMs)
+			if m2, ok := obs.(map[string]any); ok {
+				if _, hung2 := m2["hang"]; !hung2 {
+					m2["slow"] = true
+				}
+			}
+		}
+	}
 	if m, ok := obs.(map[string]any); ok {
 		if _, crashed := m["crash"]; crashed {
 			atomic.AddInt64(&c20Crashes, 1)
@@ -222,6 +271,7 @@ type c20Obs struct {
 	stages map[string]string
 	panics []string
 	sites  []string
+	errs   map[string]string // only with C20_ERRS=1 (debugging aid): the error text per stage
 }
 
 func (o *c20Obs) stage(name string, f func() error) (ok bool) {
@@ -239,6 +289,13 @@ func (o *c20Obs) stage(name string, f func() error) (ok bool) {
 	}()
 	if err := f(); err != nil {
 		o.stages[name] = "err"
+		if o.errs != nil {
+			msg := err.Error()
+			if len(msg) > 240 {
+				msg = msg[:240]
+			}
+			o.errs[name] = msg
+		}
 		return false
 	}
 	o.stages[name] = "ok"
@@ -257,6 +314,9 @@ func runC20(c hx.Case) any {
 	files["/r/root.json"] = data
 	reads := 0
 	o := &c20Obs{stages: map[string]string{}}
+	if os.Getenv("C20_ERRS") != "" {
+		o.errs = map[string]string{}
+	}
 	o.stage("sniff", func() error {
 		var vd struct {
 			OpenAPI string `json:"openapi" yaml:"openapi"`
@@ -295,11 +355,17 @@ func runC20(c hx.Case) any {
 			return doc.Validate(ctx, openapi3.DisableSchemaDefaultsValidation(), openapi3.DisableExamplesValidation(), openapi3.DisableSchemaPatternValidation())
 		})
 		o.stage("marshal", func() error { _, err := json.Marshal(doc); return err })
-		o.stage("internalize", func() error { doc.InternalizeRefs(ctx, nil); return nil })
-		o.stage("marshal2", func() error { _, err := json.Marshal(doc); return err })
+		// the document is serialised again only when InternalizeRefs returned (after a panic its state is undefined)
+		if o.stage("internalize", func() error { doc.InternalizeRefs(ctx, nil); return nil }) {
+			o.stage("marshal2", func() error { _, err := json.Marshal(doc); return err })
+		}
 	}
 	sort.Strings(o.sites)
-	return map[string]any{"stages": o.stages, "panics": o.panics, "sites": o.sites, "kind": c20Kind(o)}
+	res := map[string]any{"stages": o.stages, "panics": o.panics, "sites": o.sites, "kind": c20Kind(o)}
+	if o.errs != nil {
+		res["errs"] = o.errs
+	}
+	return res
 }
 
 func c20Kind(o *c20Obs) string {
@@ -356,6 +422,15 @@ func cmpC20(c hx.Case, impl any, reply map[string]any) hx.Verdict {
 	if f := os.Getenv("C20_CENSUS"); f != "" && len(iAb) > 0 {
 		c20Census(f, c, im, reply)
 	}
+	if f := os.Getenv("C20_LOADCENSUS"); f != "" {
+		// debugging aid: model's load outcome against the implementation's load stage
+		st, _ := im["stages"].(map[string]any)
+		il, ml := fmt.Sprint(st["load"]), fmt.Sprint(model["load"])
+		mok := ml == "ok"
+		if st != nil && ml != "unparsed" && ml != "not-an-object" && (il == "ok") != mok {
+			c20Census(f, c, map[string]any{"load": il, "errs": im["errs"]}, reply)
+		}
+	}
 	// implementation vs model: the model lists the stage groups in which it can end abnormally
 	// ("load", "validate", "post" = marshal/internalize/marshal, "crash:<function family>"); the
 	// implementation agrees when it returns normally and the model lists nothing, or when the group of
@@ -377,6 +452,9 @@ func cmpC20(c hx.Case, impl any, reply map[string]any) hx.Verdict {
 			v.Detail += fmt.Sprintf(" (group %s; model: %v)", g, mAb)
 		}
 	}
+	if f := os.Getenv("C20_MISMATCH"); f != "" && !v.IM {
+		c20Census(f, c, im, reply)
+	}
 	return v
 }
 
@@ -391,6 +469,8 @@ func c20Group(iAb []string, im map[string]any) string {
 			return "crash:visit"
 		case strings.Contains(site, "deref"):
 			return "crash:deref"
+		case strings.Contains(site, "MarshalJSON") || strings.Contains(site, "MarshalYAML"):
+			return "crash:marshal"
 		case strings.Contains(site, "alidate"):
 			return "crash:validate"
 		}
@@ -1070,11 +1150,19 @@ func genC20(ctx *hx.Ctx, emit func(hx.Case)) {
 			raw := c20Deep(oc[0], oc[1], n)
 			emit(hx.Case{"raw64": base64.StdEncoding.EncodeToString(raw), "entry": "data", "ext": false, "parsed": false, "deep": n})
 		}
-		// deep but valid positions: schema nesting depth n (bounded to what the parsers accept)
-		if n <= 5000 {
+	}
+	// deep but valid positions: schema nesting depth n. The typed decoding is quadratic in the depth
+	// (1000 levels: 0.5 s, 5000 levels: 11 s of json.Unmarshal on this machine) — kept well below the
+	// per-case limit so that load on the machine cannot turn the case into a timeout.
+	valid := []int{100, 1000}
+	if ctx.Thorough() {
+		valid = append(valid, 2500)
+	}
+	for _, n := range valid {
+		for _, kw := range []string{"items", "not", "additionalProperties"} {
 			var s any = map[string]any{"type": "string"}
 			for i := 0; i < n; i++ {
-				s = map[string]any{"items": s}
+				s = map[string]any{kw: s}
 			}
 			emit(c20Case(c20Set(minimal, c20Path{"components"}, map[string]any{"schemas": map[string]any{"D": s}}, false), "json", "data", false, false))
 		}
@@ -1126,7 +1214,22 @@ func genC20(ctx *hx.Ctx, emit func(hx.Case)) {
 
 // ---------------------------------------------------------------- shrinker
 
+// shrinkC20 proposes at most c20ShrinkCap smaller variants per round (largest deletions first): a round
+// costs one child-process evaluation per candidate, a crashing candidate two process starts.
+const c20ShrinkCap = 160
+
 func shrinkC20(c hx.Case) []hx.Case {
+	out := shrinkC20All(c)
+	if c20OverBudget() {
+		return nil
+	}
+	if len(out) > c20ShrinkCap {
+		out = out[:c20ShrinkCap]
+	}
+	return out
+}
+
+func shrinkC20All(c hx.Case) []hx.Case {
 	var out []hx.Case
 	if _, raw := c["raw64"]; raw {
 		b := c20Bytes(c)
